@@ -108,7 +108,7 @@ def helpers(ctx):
             ctx.check(bool(g) and all(fail_is_error(f, e) for e in g), "SEP", f.key, "short-commitment-refused",
                       "a commitment with fewer coefficients than the first must be refused, not truncated", f.loc)
     # Taproot post-processing + default
-    f = ctx.anchor("<frost_secp256k1_tr::Secp256K1Sha256TR as frost_core::traits::Ciphersuite>::post_dkg")
+    f = None if ctx.core_only else ctx.anchor("<frost_secp256k1_tr::Secp256K1Sha256TR as frost_core::traits::Ciphersuite>::post_dkg")
     if f:
         v = FnView.get(P, f)
         oks = [v.cx.operand(rv["ops"][0]) for (b, k, rv) in ret_writes(f) if k == "ok"]
@@ -133,6 +133,6 @@ def run(ctx):
                    "commitment length; Taproot post-processing tweaks both packages with None.")
     ctx.undecided = ("most of the property: equality of packages across participants, shares lying on the summed "
                      "polynomial, signing afterwards (agreement between runs is not a structural fact).")
-    ctx.floor = 14
+    ctx.floor = 13 if ctx.core_only else 14
     part3_wiring(ctx)
     helpers(ctx)
